@@ -66,12 +66,14 @@ def controlTypeName : ControlType → String
 
 /-- **tie by regeneration**: the `CONTROLS` map of src/controls_impl.rs — one `map.insert(<OID constant>,
 ControlType::<Variant>)` per recognised response control, read by translate/consts.py on every run — is the model's
-`controlsTable`: the same rows (OID value by constant name, variant by name), no more, no fewer, and the OIDs are
-pairwise different (so the order of insertion into the `HashMap` does not matter). -/
+`controlsTable`: every row of the one is a row of the other (OID value by constant name, variant by name), in whatever
+order the `insert`s are written (it is a `HashMap`), and the keys are pairwise different on both sides. -/
 theorem C19_controls_map_source :
-    Gen.rustControlsMap.map (fun p => (Gen.rustOid p.1, p.2)) =
-      controlsTable.map (fun p => (some p.1, controlTypeName p.2)) ∧
-    (controlsTable.map (·.1)).Nodup := by decide
+    (Gen.rustControlsMap.all fun p => controlsTable.any fun q =>
+      Gen.rustOid p.1 == some q.1 && p.2 == controlTypeName q.2) = true ∧
+    (controlsTable.all fun q => Gen.rustControlsMap.any fun p =>
+      Gen.rustOid p.1 == some q.1 && p.2 == controlTypeName q.2) = true ∧
+    (controlsTable.map (·.1)).Nodup ∧ (Gen.rustControlsMap.map (·.1)).Nodup := by decide
 
 theorem C19_known_table :
     knownType Codecs.Spec.rfcPagedResults = some .pagedResults ∧
